@@ -20,12 +20,14 @@ package participle
 //@ pred errOK(e error) = e == nil || implements(e, Error) || uf("user_error", "Bool", e)
 
 //@ func newParseContext [C13 C15]
+//@   check-overflow
 //@   requires lex != nil
 //@   ensures result.PeekingLexer == *lex && result.lookahead == lookahead && result.caseInsensitive == caseInsensitive
 //@   ensures result.apply == nil && result.deepestError == nil && result.deepestErrorDepth == 0 && result.depth == 0 && result.trace == nil && result.allowTrailing == false
 //@   ensures result.firstMatch == -1
 
 //@ func (*parseContext).Branch [C02 C01 C13 C11]
+//@   check-overflow
 //@   frame-tags C09
 //@   fresh result
 //@   ensures result != nil && fresh(result) && result.PeekingLexer == p.PeekingLexer && result.apply == nil && len(result.apply) == 0
